@@ -410,6 +410,15 @@ func C10(r *vf.Run) {
 					if h.done {
 						continue
 					}
+					if g.Intn(40) == 0 {
+						// the owner expands the image (the usual idiom: append another bank to Contents); the
+						// image is then a new array, and it is the image that writers write to
+						extra := g.Bytes(0x8000)
+						rom.Contents = append(rom.Contents, extra...)
+						shadow = append(shadow, extra...)
+						desc = append(desc, "image expanded by one bank")
+						cells["multi:image-expanded"]++
+					}
 					if h.rd != nil {
 						buf := make([]byte, 1+g.Intn(64))
 						n, err := h.rd.Read(buf)
